@@ -136,6 +136,25 @@ pub fn replay_int(case: &Value) -> (crate::erralg::Outcome, String, bool) {
             }
         }
     }
+    // the same item followed by another one: the position of an item in its list changes nothing
+    // (syn folds a sign into the literal only when nothing follows the value)
+    if neg && case["sp"]["quoted"] != true {
+        let src = format!("#[root(name = {}, zz = 1)]\nstruct Demo;", text);
+        if let Ok(di) = syn::parse_str::<syn::DeriveInput>(&src) {
+            if let syn::Meta::List(l) = &di.attrs[0].meta {
+                let mut nodes = crate::input::split(l.tokens.clone());
+                if nodes.len() == 2 { if let crate::input::Node::Meta(m2) = nodes.remove(0) {
+                    let r2 = catch(std::panic::AssertUnwindSafe(|| convert_int(ty, nz, &m2)));
+                    let eok = case["expect"]["ok"].as_bool().unwrap();
+                    match r2 {
+                        Err(p) => prop.push(format!("{} (followed by another item): panicked: {}", tag, p)),
+                        Ok(Ok(v)) => if !eok { prop.push(format!("{} (followed by another item): accepted as {}", tag, v)); } else if v != want { prop.push(format!("{} (followed by another item): yields {}", tag, v)); },
+                        Ok(Err(e)) => if eok { prop.push(format!("{} (followed by another item): rejected ({}) although in range", tag, e)); },
+                    }
+                } }
+            }
+        }
+    }
     let _ = json!(null);
     (crate::erralg::Outcome { prop, model: vec![] }, tag, false)
 }
